@@ -595,7 +595,7 @@ pub fn run(tier: Tier) -> i32 {
                 rep.violation(key, format!("{} :: history {:?}", what, last.hist), json!({"part": "hist", "voice_kind": kind, "history": last.hist.iter().map(|o| format!("{:?}", o)).collect::<Vec<_>>()}));
             }
         }
-        if counts.len() == 2 && counts[0] != counts[1] {
+        if rep.violation_count() == 0 && counts.len() == 2 && counts[0] != counts[1] {
             crate::elog!("MACHINERY: state counts differ between thread counts: {:?}", counts);
             return 2;
         }
